@@ -139,6 +139,12 @@ func h07Recipe() CharRecipe {
 	case 3:
 		r.Require = Symbols
 		r.Allow = Digits
+	case 4:
+		// the Ambiguous class overlaps Digits, Uppers and Lowers
+		r.Require = Digits | Ambiguous
+	case 5:
+		r.Require = Ambiguous
+		r.Allow = Digits
 	}
 	return r
 }
@@ -226,5 +232,5 @@ func H07() {
 
 type bigInt = big.Int
 
-func h08Bits(f float32) uint32 { return math.Float32bits(f) }
+func h08Bits(f float32) uint32  { return math.Float32bits(f) }
 func h08Log2(x float64) float64 { return math.Log2(x) }
